@@ -676,6 +676,8 @@ spif_url_init_from_ipaddr(spif_url_t self, spif_ipsockaddr_t ipaddr)
     }
 
     self->port = spif_str_new_from_num(ntohs(ipaddr->sin_port));
+    /* Give the URL its text form too, so that it can be duplicated, compared and shown. */
+    spif_url_unparse(self);
     return TRUE;
 }
 
@@ -710,6 +712,8 @@ spif_url_init_from_unixaddr(spif_url_t self, spif_unixsockaddr_t unixaddr)
     } else {
         self->path = (spif_str_t) NULL;
     }
+    /* Give the URL its text form too, so that it can be duplicated, compared and shown. */
+    spif_url_unparse(self);
     return TRUE;
 }
 
